@@ -1423,6 +1423,22 @@ class SubstitutionInverse(Rule):
 
         lower = full_normalize(lower, ctx)
         upper = full_normalize(upper, ctx)
+        # x = f(u) has to map the new end points back to the old ones
+        for new_b, old_b in ((lower, e.lower), (upper, e.upper)):
+            if new_b.is_evaluable() and old_b.is_evaluable() and not (old_b.is_inf() and not new_b.is_inf()):
+                if new_b == POS_INF:
+                    back = limits.reduce_inf_limit(self.var_subst, self.var_name, ctx.get_conds())
+                elif new_b == NEG_INF:
+                    back = limits.reduce_neg_inf_limit(self.var_subst, self.var_name, ctx.get_conds())
+                else:
+                    back = self.var_subst.subst(self.var_name, new_b)
+                try:
+                    v1, v2 = expr.eval_expr(back), expr.eval_expr(old_b)
+                    ok = (v1 == v2) or abs(v1 - v2) < 1e-9
+                except (NotImplementedError, ZeroDivisionError, ValueError, TypeError):
+                    ok = True  # cannot be evaluated numerically
+                if not ok:
+                    raise AssertionError("SubstitutionInverse: %s does not map %s to %s" % (self.var_subst, new_b, old_b))
         if lower.is_evaluable() and upper.is_evaluable() and expr.eval_expr(lower) > expr.eval_expr(upper):
             return -expr.Integral(self.var_name, upper, lower, new_e_body)
         else:
